@@ -444,8 +444,15 @@ class ParamT(SymT):
     truthy_log = []
 
     def __bool__(self):
-        ParamT.truthy_log.append(self.cols[0].meta)
-        return True
+        import sys
+        f = sys._getframe(1)
+        while f is not None:
+            if f.f_code.co_name == '__init__':
+                ParamT.truthy_log.append(self.cols[0].meta)
+                return True
+            f = f.f_back
+        # outside a constructor the value of a parameter must not steer control flow (a zero would take another branch)
+        raise Untranslatable(f'truthiness of the numeric parameter {self.cols[0].meta!r} outside a constructor')
 
 
 def var(name):
